@@ -391,13 +391,14 @@ def _decode_error(name, msg):
 
 def pytype_results(group):
   """For every (sig, variant, shapes) and every shape: the canonical result string observed from pytype
-  (errors at the call's line, else the revealed type of the returned parameter tuple)."""
+  (errors at the call's line, else the revealed type of the returned parameter tuple); plus the errors
+  pytype reported anywhere else in the module (none are expected)."""
   io, opts, loader = _pytype()
   _, src, where = module_text(group)
   try:
     ret, _ = io.generate_pyi(src, opts, loader)
   except Exception as ex:   # pylint: disable=broad-except
-    return [["X:%s:%s" % (type(ex).__name__, str(ex)[:200])] * len(shapes) for _, _, shapes in group]
+    return [["X:%s:%s" % (type(ex).__name__, str(ex)[:200])] * len(shapes) for _, _, shapes in group], []
   errs = collections.defaultdict(list)
   reveals = {}
   stray = []
@@ -438,12 +439,11 @@ def pytype_results(group):
         r = "?" + t
       else:
         r = "O:" + ",".join(_decode_type(x, first, n) for x, n in zip(elems, names))
-    if stray:
-      r += " !stray:" + stray[0]
     out[j][k] = r
-  return out
+  return out, stray
 
 
 def run_group(group):
   """Worker entry point: everything observed from the implementations for one module."""
-  return cpython_results(group), pytype_results(group)
+  pres, stray = pytype_results(group)
+  return cpython_results(group), pres, stray
